@@ -878,6 +878,9 @@ func vEncodeDoc(name string, root *etree.Element, mode int) string {
 	if fb := vxI64(n + ".first_byte"); fb == ' ' || fb == '\n' || fb == '\t' || fb == '\r' {
 		// white space before the root element, as the model chose
 		raw = append([]byte{byte(fb)}, raw...)
+	} else if fb == 0xEF {
+		// a UTF-8 byte order mark in front of the document
+		raw = append([]byte{0xEF, 0xBB, 0xBF}, raw...)
 	}
 	switch mode {
 	case 1:
